@@ -128,9 +128,9 @@ pub fn generate(seed: u64, tier: Tier) -> Case {
                 let t = *rng.pick(&owners);
                 let m = p.items[t].module;
                 let name = if rng.chance(1, 4) {
-                    format!("r#{}Vftable", p.items[t].name)
+                    format!("r#{}", crate::inventory::vftable_name(&p.items[t].name))
                 } else {
-                    format!("{}Vftable", p.items[t].name)
+                    crate::inventory::vftable_name(&p.items[t].name)
                 };
                 injected = Some((new_type(name, m, rng.range(1, 64)), "user_type_named_like_vftable"));
             }
@@ -613,7 +613,7 @@ fn check_build(case: &Case, w: usize, r: &RunResult) -> Result<(), (String, Stri
             // `<T>Vftable` belongs to `T` whether or not `T` declares a vftable block: there is
             // one vftable struct for every type that declares one, none for the others.
             if let pyxis::grammar::ItemDefinitionInner::Type(_) = &d.inner {
-                owned_names.insert(format!("{}Vftable", crate::inventory::plain_ident(d.name.as_str())));
+                owned_names.insert(crate::inventory::vftable_name(d.name.as_str()));
             }
         }
         for (n, _) in &m.extern_types {
@@ -641,7 +641,7 @@ fn check_build(case: &Case, w: usize, r: &RunResult) -> Result<(), (String, Stri
                 pyxis::grammar::ItemDefinitionInner::Type(t) => {
                     want_structs.insert(crate::inventory::plain_ident(d.name.as_str()));
                     if t.statements.iter().any(|s| s.field.is_vftable()) {
-                        want_structs.insert(format!("{}Vftable", crate::inventory::plain_ident(d.name.as_str())));
+                        want_structs.insert(crate::inventory::vftable_name(d.name.as_str()));
                     }
                 }
                 pyxis::grammar::ItemDefinitionInner::Enum(_) => {
